@@ -10,7 +10,7 @@ def get(modname, clsname, params, pts, t, pos=()):
     sol = s(np.array(pts, dtype=float), t)
     return {n: np.asarray(sol[n], dtype=float) for n in sol.dtype.names}
 
-def cmp(a, b, names, tol, mask_jumps=False):
+def cmp(a, b, names, tol, mask_jumps=False, wave_x=None, xs=None):
     worst = {}
     keep = None
     if mask_jumps:
@@ -24,6 +24,12 @@ def cmp(a, b, names, tol, mask_jumps=False):
             return m
         for n in names:
             keep &= ~(jumps(a[n]) & jumps(b[n]))       # only where BOTH routes have a discontinuity at the same place
+        if wave_x is not None:
+            # weak discontinuities (< 2 % per cell) are not seen by the jump detector, but the general-EOS driver still smears them over the cells of
+            # its own grid: skip 5 cells on either side of every wave position reported by the ideal-gas driver
+            xs = np.asarray(xs, float); dx = float(xs[1] - xs[0])
+            for xw in wave_x:
+                keep &= np.abs(xs - xw) > 5 * dx
     for n in names:
         x, y = a[n], b[n]
         if keep is not None:
@@ -42,7 +48,14 @@ def main(payload):
             if c.get('negate_b'):
                 for n in c['negate_b']:
                     b[n] = -b[n]
-            out.append(cmp(a, b, c['names'], c['tol'], c.get('mask_jumps', False)))
+            wave_x = None
+            if c.get('mask_jumps') and 'riemann' in c['a'][0]:
+                from exactpack.solvers.riemann import riemann as _R
+                P = c['a'][2]
+                prob = _R.RiemannIGEOS(t=c['a'][4], **{k: P[k] for k in ('xmin', 'xd0', 'xmax', 'rl', 'ul', 'pl', 'gl', 'rr', 'ur', 'pr', 'gr')})
+                prob.driver(np.array([P['xd0']]))
+                wave_x = [float(v) for v in prob.Xregs]
+            out.append(cmp(a, b, c['names'], c['tol'], c.get('mask_jumps', False), wave_x, c['a'][3]))
         except Exception as ex:
             out.append({'error': type(ex).__name__ + ': ' + str(ex)[:200]})
     return out
